@@ -30,7 +30,10 @@ static void hexout(FILE *o, const char *p, size_t n) { put_hex(o, p, n); }
 /* the caller: snapshot, run, report through fd */
 static void caller(int fd, const char *id, const char *argspec, int orphan, pid_t oldparent) {
     FILE *rep = fdopen(fd, "w");
-    if (orphan) { for (int i = 0; i < 5000 && getppid() == oldparent; i++) usleep(1000); }
+    if (orphan) {
+        for (int i = 0; i < 20000 && getppid() == oldparent; i++) usleep(1000);
+        if (getppid() == oldparent) { fprintf(rep, "R skip\nS -\nD\n"); fflush(rep); _exit(0); }   /* not re-parented in 20 s: no verdict */
+    }
     char *side = 0; size_t sl = 0; FILE *s = open_memstream(&side, &sl);
     char *truth = 0; size_t tl = 0; FILE *t = open_memstream(&truth, &tl);
     pid_t self = getpid(), pp = getppid();
